@@ -37,7 +37,7 @@ def mk(rng, g, depth, nrows, mode, position, kinds=("num", "case", "str", "pred"
         sel.append({"al": "id", "e": exprgen.col("id")})
     if position in ("where", "both"):
         g.in_where = True
-        where = g.pred(depth)
+        where = g.flatchain(rng.choice([2, 3, 3, 4])) if g.f.get("flat") else g.pred(depth)
         g.in_where = False
     sqltxt = "SELECT " + ", ".join("%s AS %s" % (sql(it["e"]), it["al"]) if it["e"]["t"] != "col" or it["e"]["c"] != it["al"] else it["al"] for it in sel) + " FROM stream"
     meta = {"fam": "direct", "star": 0, "chan": 0, "sel": sel}
@@ -58,8 +58,9 @@ PROFILES = [  # (name, generator flags, positions, select-item kinds, share)   -
     ("case_top", dict(nulls=False, cases=False, nots=False, isnull_sel=False), ["select"], ("case",), 0.10),
     ("string_fn", dict(cases=False, nots=False), ["select"], ("str",), 0.08),
     ("select_cmp", dict(cases=False, nots=False, neq=False), ["select"], ("cmp",), 0.08),
-    ("where_full", dict(nulls=False, cases=False, nots=False), ["where", "both"], ("num", "str"), 0.30),
-    ("where_null", dict(cases=False, nots=False, neq=False, ors=False, eqcols=False, plus=False), ["where", "both"], ("num",), 0.22),
+    ("where_full", dict(nulls=False, cases=False, nots=False), ["where", "both"], ("num", "str"), 0.20),
+    ("where_flat", dict(nulls=False, cases=False, nots=False, flat=True), ["where"], ("num",), 0.12),
+    ("where_null", dict(cases=False, nots=False, neq=False, ors=False, eqcols=False, plus=False), ["where", "both"], ("num",), 0.20),
 ]
 
 
